@@ -17,6 +17,13 @@ type hashFact struct {
 }
 
 func (ex *Exec) hashBytes(kind string, pre []Term, n int) []Term {
+	return ex.funBytes(kind, pre, n, true)
+}
+
+// funBytes: n fresh bytes that are a FUNCTION of the pre-image (equal pre-images give equal bytes); with injective
+// set, also collision-free (hashes); without, distinct pre-images may map to the same bytes (e.g. public-key
+// recovery: many signatures recover the same address).
+func (ex *Exec) funBytes(kind string, pre []Term, n int, injective bool) []Term {
 	out := make([]Term, n)
 	allConst := true
 	for _, p := range pre {
@@ -33,7 +40,9 @@ func (ex *Exec) hashBytes(kind string, pre []Term, n int) []Term {
 			eqOut = And(eqOut, Eq(out[i], f.out[i]))
 		}
 		if len(f.pre) != len(pre) {
-			ex.assume(Not(eqOut)) // collision-freedom across lengths
+			if injective {
+				ex.assume(Not(eqOut)) // collision-freedom across lengths
+			}
 			continue
 		}
 		eqPre := BoolC(true)
@@ -41,7 +50,11 @@ func (ex *Exec) hashBytes(kind string, pre []Term, n int) []Term {
 			eqPre = And(eqPre, Eq(pre[i], f.pre[i]))
 		}
 		eqPre = ex.nameT(eqPre)
-		ex.assume(Eq(eqOut, eqPre)) // functional + injective
+		if injective {
+			ex.assume(Eq(eqOut, eqPre)) // functional + injective
+		} else {
+			ex.assume(Or(Not(eqPre), eqOut)) // functional only
+		}
 	}
 	if ex.hashes == nil {
 		ex.hashes = map[string][]hashFact{}
